@@ -187,6 +187,9 @@ def run(tier, seed, replay=None):
     ncmp, gviol = pe.check_genimpls([invocation(c) for c in cases])
     stats['helper_impls_compared'] = ncmp
     violations += gviol
+    ncmp2, mviol = pe.check_mainimpls([invocation(c) for c in cases])
+    stats['main_impls_compared'] = ncmp2
+    violations += mviol
     return finish('C17', tier, seed, gate, cases, stats, nontrivial, violations, set(),
                   rule=RULE,
                   samples=[dict(invocation=invocation(c)[:500], probes=c.probes[:3]) for c in cases[:3]],
